@@ -162,6 +162,17 @@ func (d *DgramConn) Read(p []byte) (int, error) {
 	}
 }
 
+// ForgetHistory makes the queries sent so far unavailable to the replay fates (used when a
+// harness moves the session to another point of its sequence space: queries of the old epoch
+// are not "old queries" of the new one).
+func (d *DgramConn) ForgetHistory() {
+	d.mu.Lock()
+	for i := range d.history {
+		d.history[i] = nil
+	}
+	d.mu.Unlock()
+}
+
 // Wire returns every datagram that crossed this client's path so far, concatenated.
 func (d *DgramConn) Wire() []byte {
 	d.mu.Lock()
@@ -279,7 +290,7 @@ func (d *DgramConn) Write(p []byte) (int, error) {
 	d.FateLog = append(d.FateLog, fate)
 	d.mu.Unlock()
 	replay := func(back int) {
-		if i := exch - 1 - back; i >= 0 {
+		if i := exch - 1 - back; i >= 0 && d.history[i] != nil {
 			d.serve(exch, d.history[i]) // answer of a replayed old query is dropped by the path
 		}
 	}
